@@ -464,11 +464,15 @@ def _diff(a, b, path=""):
 # ---------------------------------------------------------------- allow-list
 
 
+# names that React, the DOM or this library give a meaning of their own: the allow-list applies to them like to any other
+ALLOW_EXTRA = ["key", "ref", "children", "style", "className", "class_", "dangerouslySetInnerHTML", "id_", "data_x", "aria_label", "on_click", "htmlFor"]
+
+
 def allow_case():
     return st.fixed_dictionaries(
         {
-            "props": st.lists(st.sampled_from(PROP_NAMES), min_size=1, max_size=4, unique=True),
-            "allowed": st.lists(st.sampled_from(PROP_NAMES), min_size=1, max_size=6, unique=True),
+            "props": st.lists(st.sampled_from(PROP_NAMES + ALLOW_EXTRA), min_size=1, max_size=4, unique=True),
+            "allowed": st.lists(st.sampled_from(PROP_NAMES + ALLOW_EXTRA), min_size=1, max_size=6, unique=True),
             "via_create": st.booleans(),
         }
     )
@@ -487,9 +491,10 @@ def body_allow(case, note):
     except Exception:  # noqa - "rejected at construction"
         raised = True
     check(raised == bool(outside), "allow-list: construction accepted a prop outside the list / rejected props inside it", case["allowed"], case["props"])
+    special = any(p in ALLOW_EXTRA for p in outside)
     if not raised:
         check(list(c.attrs.keys()) == list(dict.fromkeys(norm(p) for p in case["props"])), "accepted props are not stored once each under their normalised names")
-    note(bool(outside) and len(outside) < len(case["props"]), "rejected" if outside else "accepted")
+    note(bool(outside) and len(outside) < len(case["props"]), "rejected" if outside else "accepted", "special-name-outside-the-list" if special else "")
 
 
 def selftest():
@@ -515,5 +520,5 @@ CLAUSES = [
         required=("tfy", "metadata-below-top", "node-valued-prop", "style-prop", "added-later", "added-from-one-shot-iterable", "edited-then-converted-again", "earlier-conversion-raised", "raw-text-element-with-text"),
         rule="see RULE",
     ),
-    Clause("allowlist", body_allow, strategy=allow_case, quick=400, thorough=3000, shards_quick=1, shards_thorough=2, required=("rejected", "accepted"), rule="some but not all props outside the list"),
+    Clause("allowlist", body_allow, strategy=allow_case, quick=400, thorough=3000, shards_quick=1, shards_thorough=2, required=("rejected", "accepted", "special-name-outside-the-list"), rule="some but not all props outside the list"),
 ]
